@@ -473,7 +473,39 @@ func extractHP(res *result) ([][]hpEvent, string) {
 				return nil, "hook mon.finish.locked: unexpected argument types"
 			}
 			if mine {
-				out[ci] = append(out[ci], hpEvent{seq: ev.Seq, kind: 'f', prio: p, skipped: skipped[m.ID()], mon: m.ID()})
+				out[ci] = append(out[ci], hpEvent{seq: ev.Seq, kind: 'f', prio: p, skipped: skipped[m.ID()] || !m.IsActivated(), mon: m.ID()})
+			}
+		}
+	}
+	// The activation hook reports the number the bookkeeping counted under, not
+	// the monitor. The reference has to count under the monitor's own priority
+	// number (Monitor.Priority(), reported with the finish): an activation is
+	// attributed to the first later finish of an activated monitor that reports
+	// the same number; a finish that finds none takes the oldest activation left
+	// over and gives it the monitor's number. On a tree whose bookkeeping counts
+	// under the monitor's number nothing is ever re-labelled.
+	for ci := range out {
+		e := out[ci]
+		used := make([]bool, len(e))
+		for j := range e {
+			if e[j].kind != 'f' || e[j].skipped {
+				continue
+			}
+			pick := -1
+			for i := 0; i < j; i++ {
+				if e[i].kind == 'a' && !used[i] && e[i].prio == e[j].prio {
+					pick = i
+					break
+				}
+			}
+			for i := 0; i < j && pick < 0; i++ {
+				if e[i].kind == 'a' && !used[i] {
+					pick = i
+				}
+			}
+			if pick >= 0 {
+				used[pick] = true
+				e[pick].prio = e[j].prio
 			}
 		}
 	}
